@@ -63,6 +63,13 @@ class CountingSource:
             yield row
 
 
+class SizedCountingSource(CountingSource):
+    """the same source knowing its length (as a database result or a file-backed dataset does): still handed out lazily"""
+
+    def __len__(self):
+        return self.n
+
+
 def build_step(st, k, log, workdir):
     """st: step description (dict); k: step number; returns a real Flow link"""
     t = st['t']
@@ -135,12 +142,12 @@ def build_step(st, k, log, workdir):
     raise ValueError(t)
 
 
-def run_pipeline(n, steps, workdir, via='datastream', sparse=None):
+def run_pipeline(n, steps, workdir, via='datastream', sparse=None, sized=False):
     """returns {'events': [...], 'outcome': 'returned' | ['raised', class name, cause class name], 'artifacts': {...}}"""
     log = []
     shutil.rmtree(workdir, ignore_errors=True)
     os.makedirs(workdir)
-    links = [CountingSource(n, log, sparse)] + [build_step(st, k + 1, log, workdir) for k, st in enumerate(steps)]
+    links = [(SizedCountingSource if sized else CountingSource)(n, log, sparse)] + [build_step(st, k + 1, log, workdir) for k, st in enumerate(steps)]
     outcome = 'returned'
     delivered = []
     try:
@@ -171,7 +178,7 @@ def run_pipeline(n, steps, workdir, via='datastream', sparse=None):
         log2 = []
         try:
             with quiet():
-                links2 = [CountingSource(n, log2, sparse)] + [build_step(st, k + 1, log2, workdir) for k, st in enumerate(steps)]
+                links2 = [(SizedCountingSource if sized else CountingSource)(n, log2, sparse)] + [build_step(st, k + 1, log2, workdir) for k, st in enumerate(steps)]
                 if via == 'results':
                     Flow(*links2).results()
                 else:
